@@ -189,10 +189,24 @@ mod imp {
         r.bytes(n).iter().map(|b| (b'a' + b % 26) as char).collect()
     }
 
+    /// Content classes of raw payloads (bits 6..7 of the seed): as generated, as generated, a zero run from the middle to the
+    /// end (page images, preallocated stores), nothing but zeros.
+    fn shaped(mut v: Vec<u8>, seed: u64) -> Vec<u8> {
+        match (seed >> 6) & 3 {
+            2 => {
+                let from = v.len() / 2;
+                v[from..].fill(0);
+            }
+            3 => v.fill(0),
+            _ => {}
+        }
+        v
+    }
+
     fn content_for(p: Puller, zstd: bool, seed: u64, n: usize) -> Content {
         let (logical, publish, format, trailer_len) = match p {
             ToFile | ToFileAsync | VerifiedAsync | ToVec | ToVecAsync => {
-                let l = svs::payload(seed, n, seed & 1 == 1);
+                let l = shaped(svs::payload(seed, n, seed & 1 == 1), seed);
                 (l.clone(), l, svs::FMT_RAW, 0)
             }
             ToBeveFile | ToBeveZst | Value | ValueAsync => {
@@ -209,7 +223,7 @@ mod imp {
                 // trailer lengths from none at all (the digest is then known out of band; the verifier is still the gate)
                 // through shorter and longer than the digest itself
                 let tl = [8usize, 0, 1, 8, 3, 16, 64, 0][((seed >> 3) % 8) as usize];
-                let pl = svs::payload(seed, n, seed & 1 == 1);
+                let pl = shaped(svs::payload(seed, n, seed & 1 == 1), seed);
                 let mut l = pl.clone();
                 l.extend_from_slice(&trailer_bytes(Fnv::of(&pl), tl));
                 (l, pl, svs::FMT_RAW, tl)
@@ -395,7 +409,7 @@ mod imp {
         Harness(String),
     }
 
-    fn run_pull(rt: &Arc<tokio::runtime::Runtime>, p: Puller, addr: SocketAddr, dest: PathBuf, reject: bool, trailer_len: usize, want_digest: u64) -> Ran {
+    fn run_pull(rt: &Arc<tokio::runtime::Runtime>, p: Puller, addr: SocketAddr, dest: PathBuf, reject: bool, trailer_len: usize, want_digest: u64, pre: Option<(SocketAddr, u64)>) -> Ran {
         let limit = Duration::from_secs(15);
         if p.is_async() {
             rt.block_on(async move {
@@ -411,6 +425,17 @@ mod imp {
         } else {
             let (tx, rx) = mpsc::channel();
             std::thread::spawn(move || {
+                // history on this OS thread: earlier file pulls (plain and BEVE, to a scratch directory of their own) that FAILED
+                // mid-stream; whatever they leave behind in per-thread state must not show in the pull that is judged
+                if let Some((pre_addr, kind)) = pre {
+                    if let Ok(c2) = Client::connect(pre_addr) {
+                        let scratch = svs::fresh_dir("c10pre");
+                        let r = if kind & 1 == 0 { pull_to_file(&c2, RES, &scratch.join("pre.bin")).map(|_| ()) } else { pull_to_beve_file(&c2, RES, &scratch.join("pre.beve")).map(|_| ()) };
+                        PRE_FAILED.fetch_add(r.is_err() as u64, std::sync::atomic::Ordering::Relaxed);
+                        PRE_OK.fetch_add(r.is_ok() as u64, std::sync::atomic::Ordering::Relaxed);
+                        let _ = std::fs::remove_dir_all(&scratch);
+                    }
+                }
                 let r = match Client::connect(addr) {
                     Ok(client) => Ran::Done(pull_sync(p, &client, &dest, reject, trailer_len)),
                     Err(e) => Ran::Harness(format!("Client::connect: {e}")),
@@ -423,6 +448,25 @@ mod imp {
 
     thread_local! {
         static FAKE: FakeServer = FakeServer::start(Script::clean(0, 0, vec![vec![]]));
+        /// serves the same-thread history pulls (see run_pull)
+        static FAKE_PRE: FakeServer = FakeServer::start(Script::clean(0, 0, vec![vec![]]));
+    }
+    static PRE_FAILED: std::sync::atomic::AtomicU64 = std::sync::atomic::AtomicU64::new(0);
+    static PRE_OK: std::sync::atomic::AtomicU64 = std::sync::atomic::AtomicU64::new(0);
+    /// A stream that fails after a few chunks (producer error / connection cut), for the history pull.
+    fn pre_history(seed: u64) -> (SocketAddr, u64) {
+        let kind = seed >> 9;
+        let (p, zstd) = if kind & 1 == 0 { (ToFile, kind & 2 == 2) } else { (ToBeveFile, true) };
+        let n = [15_000usize, 70_000, 300_000][(kind % 3) as usize];
+        let chunk = [5000usize, 4096, 65536][((kind >> 2) % 3) as usize];
+        let c = content_for(p, zstd, seed ^ 0x9E, n);
+        let m = svs::split_chunks(&c.wire, chunk).len();
+        let fault = if kind & 4 == 0 { Fault::ErrAfterChunks((m / 2).max(1).min(m.saturating_sub(1))) } else { Fault::CutAfterResp((m / 2).max(1)) };
+        let (script, _) = script_for(p, zstd, &c, chunk, &fault);
+        FAKE_PRE.with(|f| {
+            f.set_script(script);
+            (f.addr, kind)
+        })
     }
     /// The worker thread's fake server, loaded with `script`.
     fn fake_with(script: Script) -> SocketAddr {
@@ -622,7 +666,12 @@ mod imp {
         let reject = sc.fault == Fault::VerifyReject;
         let trailer_len = if sc.fault == Fault::TrailerTooLong { c.logical.len() + 1 + (sc.seed % 5) as usize } else { c.trailer_len };
         let verify_calls_before = VERIFY_CALLS.load(std::sync::atomic::Ordering::SeqCst);
-        let ran = run_pull(rt, sc.p, addr, dest.clone(), reject, trailer_len, Fnv::of(&c.logical));
+        // every clean blocking pull and a third of the others run behind a failed pull on the same thread
+        let pre = (!sc.p.is_async() && (sc.fault == Fault::None || sc.seed % 3 == 0)).then(|| pre_history(sc.seed));
+        if pre.is_some() {
+            acc.count("blocking_pulls_judged_behind_a_failed_pull_on_the_same_thread", 1);
+        }
+        let ran = run_pull(rt, sc.p, addr, dest.clone(), reject, trailer_len, Fnv::of(&c.logical), pre);
         let verifier_consulted = VERIFY_CALLS.load(std::sync::atomic::Ordering::SeqCst) > verify_calls_before;
         let after = svs::snapshot(&dir);
         let stats = fake_stats();
@@ -750,7 +799,7 @@ mod imp {
         );
         let mut rng = Rng::new(args.seed ^ 0xC10F);
         // (payload_len, chunk) layouts: empty, single chunk, exact multiple, 3-4 chunks, larger
-        let mut layouts: Vec<(usize, usize)> = vec![(0, 16), (5, 16), (48, 16), (50, 16), (9000, 4096)];
+        let mut layouts: Vec<(usize, usize)> = vec![(0, 16), (5, 16), (48, 16), (50, 16), (9000, 4096), (8192, 4096), (24576, 8192)];
         if args.thorough() {
             layouts.extend([(1, 1), (7, 1), (64, 7), (300, 64), (200_000, 65536)]);
         }
@@ -761,6 +810,8 @@ mod imp {
                     // bits 3..5 of the seed pick the trailer length (content_for): rotate so every length class, the empty
                     // trailer included, meets every puller x compression within a few layouts
                     let seed = (rng.below(1 << 40) & !0x38) | ((((li + zstd as usize * 3 + args.seed as usize) % 8) as u64) << 3);
+                    // bits 6..7 pick the content class (shaped): rotate it over the layouts as well
+                    let seed = (seed & !0xC0) | ((((li + 1 + zstd as usize) % 4) as u64) << 6);
                     let c = content_for(p, zstd, seed, n);
                     let faults = faults_for(p, zstd, c.wire.len(), chunk);
                     for fault in faults {
@@ -790,6 +841,8 @@ mod imp {
         let wall = Duration::from_secs(if args.thorough() { 420 } else { 40 });
         let acc = pool(scns, 10, wall, &mut rep, fault_scenario);
         acc.into_report(&mut rep);
+        rep.set("same_thread_history_pulls_that_failed_as_scripted", json!(PRE_FAILED.load(std::sync::atomic::Ordering::Relaxed)));
+        rep.set("same_thread_history_pulls_that_returned_ok", json!(PRE_OK.load(std::sync::atomic::Ordering::Relaxed)));
         rep.exhaustive = Some(rep.counters.get("work_items_total") == rep.counters.get("work_items_completed"));
         if rep.evaluations == 0 {
             rep.inconclusive("no scenario executed");
